@@ -120,6 +120,9 @@ var remoteMenu = [][]rent{
 	{{"f", "rk", true, false, "rv"}},
 	{{"d", "KX", true, false, "z"}},
 	{{"d", "KX", true, true, ""}},
+	// deletion markers that still carry a value (a peer with another schema may send them): the value means nothing
+	{{"d", "K0", true, true, "zombie"}},
+	{{"d", "KX", true, true, "zombie"}},
 }
 
 func (s *sim) enabled() []string {
@@ -369,7 +372,11 @@ func (s *sim) apply(e string) (viols []viol, stop bool) {
 					fl = 1
 				}
 				dm.Append(snapshot.KV{Key: []byte(x.k), Value: []byte(x.r.val), TimestampNano: ts, Flags: fl})
-				toMerge = append(toMerge, applied{d, x.k, ver{TS: ts, Deleted: x.r.del, Val: x.r.val}})
+				mv := x.r.val
+				if x.r.del {
+					mv = "" // deleted implies empty value
+				}
+				toMerge = append(toMerge, applied{d, x.k, ver{TS: ts, Deleted: x.r.del, Val: mv}})
 			}
 			msg.Databases = append(msg.Databases, dm)
 		}
